@@ -159,8 +159,8 @@ static int cmd_search(int argc, char **argv) {
             if (hf) fwrite(&r.stats.hash, 8, 1, hf);
         }
         if (obsf) {
-            uint64_t rec[2] = {i, r.stats.obs_hash};
-            fwrite(rec, 8, 2, obsf);
+            uint64_t rec[3] = {i, r.stats.obs_hash, r.stats.hash};
+            fwrite(rec, 8, 3, obsf);
         }
         if (r.stats.switches) il_hashes.insert(r.stats.il_hash);
         for (const char *key : {"heap_place", "heap_fill", "exact_fit", "sched", "width", "tasks", "faulted", "mode"}) {
@@ -447,6 +447,7 @@ static int cmd_sigs(int argc, char **argv) {
     Plan              plan;
     if (!plan.from_text(read_file(path))) return 2;
     runtime_init();
+    if (flag(argc, argv, "--threads")) set_backend_threads(true);
     ChildResult r = run_child_full(plan);
     printf("HASH %016llx\n", (unsigned long long)r.hash);
     printf("CRASHED %d\n", r.crashed ? 1 : 0);
